@@ -103,6 +103,19 @@ CLAIMED = {
         note='Trusted: rustc call resolution; pest produces exactly the pairs its grammar describes; the listed panic reasons (rules/c12.py PANIC_OK) were confirmed by reading.',
         technique='static analysis: call-graph reachability + type/capability audit on resolved MIR; grammar-tree vs match-arm agreement (pest_meta + syn); panic and hash-order inventories',
         design='2/C12'),
+    'C03': dict(
+        level='other',
+        text='Structural necessary conditions of lexical scoping decided on resolved MIR and the syntax tree: the special identifier class '
+             'item<N> is anchored/canonical and parsed fallibly (spelling -> symbol injective); default-value expressions are read only when a '
+             'closure is created, evaluated once on the defining scope (the result of the id-based ancestor search), stored as values and only '
+             'cloned per call; a cell carrying forward requirements reaches XExpr::Value / a capture only through require_forwards on every '
+             'path (compile and prepare_return), and the host entry point refuses unfulfilled functions; the capture re-threading protocol '
+             '(request depth-1, rewritten depth 1 at parent.cells.len()+k, requests pushed to the parent before any other cell allocation, '
+             'parent id = enclosing scope id); name lookup order; both runtime ancestor walks compare template ids with the compile-time '
+             'parent id. NOT decided: that the resolved (depth, index) pairs are right for every nesting shape.',
+        note='Trusted: rustc MIR, syn; python re as the reading of the interner regex literal.',
+        technique='static analysis: who-reads, must-pass-through (avoiding-path reachability), call-graph may-allocate closure, syntax-tree shape rules',
+        design='2/C03'),
 }
 
 NA_REASONS = {
